@@ -21,7 +21,7 @@ from pjrpc.server.specs.extractors.pydantic import PydanticSchemaExtractor
 
 NAME = 'specs'
 SERIAL = False
-NAMES = ['a', 'b', 'c', 'd']
+NAMES = ['a', 'ab', 'abc', 'd']      # names contained in one another: exclusion is by equality of names, not by containment
 
 
 def signatures(n):
